@@ -1072,6 +1072,10 @@ func init() {
 			r.importing = "C01"
 			checkBindingModes(r, prog, NewGA(prog, g.Tab), "c01") // the fold assumes each form sets exactly its names: `_` binds nothing
 		}
+		r.importing = "C03"
+		checkConnectives(r, prog, a, "c03") // the bindings reach every operand of not/and/or inside the braces
+		r.importing = "C18"
+		checkForwarding(r, prog, a, "c18") // … and a nested quantifier: each evaluation function hands on the options it was given
 		r.importing = "C05"
 		checkValueLookup(r, prog, a, "c05") // "absent S": the lookup says not-present exactly for a key missing from a map, at any depth of two or more
 		r.importing = "C18"
